@@ -27,6 +27,7 @@ import (
 	"fmt"
 	"go/ast"
 	"go/parser"
+	"go/printer"
 	"go/token"
 	"go/types"
 	"os"
@@ -43,15 +44,55 @@ import (
 //go:embed known_funcs.txt
 var knownFuncsTxt string
 
+// knownSigs: declaration key -> signature text (functions), "field pkg.Type.name" -> type text.
+var knownSigs = map[string]string{}
+
 var knownFuncs = func() map[string]bool {
 	m := map[string]bool{}
 	for _, l := range strings.Split(knownFuncsTxt, "\n") {
 		if l = strings.TrimSpace(l); l != "" && !strings.HasPrefix(l, "#") {
-			m[l] = true
+			parts := strings.SplitN(l, "\t", 2)
+			if strings.HasPrefix(parts[0], "field ") {
+				if len(parts) == 2 {
+					knownSigs[parts[0]] = parts[1]
+				}
+				continue
+			}
+			m[parts[0]] = true
+			if len(parts) == 2 {
+				knownSigs[parts[0]] = parts[1]
+			}
 		}
 	}
 	return m
 }()
+
+func nodeText(fset *token.FileSet, n ast.Node) string {
+	var b bytes.Buffer
+	_ = printer.Fprint(&b, fset, n)
+	return strings.Join(strings.Fields(b.String()), " ")
+}
+
+// sigText: parameter and result types of a declaration, without names.
+func sigText(fset *token.FileSet, ft *ast.FuncType) string {
+	list := func(fl *ast.FieldList) string {
+		if fl == nil {
+			return ""
+		}
+		var ts []string
+		for _, f := range fl.List {
+			n := len(f.Names)
+			if n == 0 {
+				n = 1
+			}
+			for i := 0; i < n; i++ {
+				ts = append(ts, nodeText(fset, f.Type))
+			}
+		}
+		return strings.Join(ts, ", ")
+	}
+	return "(" + list(ft.Params) + ") (" + list(ft.Results) + ")"
+}
 
 // declKey names a function declaration: "gbn.newQueue", "gbn.(queue).resend".
 func declKey(pkgName string, d *ast.FuncDecl) string {
@@ -422,6 +463,7 @@ func normalisePackage(p *packages.Package, dir string, isNew map[string]bool, im
 		note.Inlined = append(note.Inlined, pick.key)
 	}
 	if len(note.Inlined) > 0 {
+		unwrapCalledLiterals(p, imps, src, note)
 		removeDeadHelpers(p, dir, isNew, imps, src, note)
 	}
 	for name, b := range src {
@@ -445,20 +487,54 @@ func firstLine(s string) string {
 	return s
 }
 
-// genKnownFuncs prints the declaration keys of the tree (used once, on the pinned commit).
+// genKnownFuncs prints the declaration keys (with signatures) and the struct fields of the tree
+// (used once, on the pinned commit).
 func genKnownFuncs(repo string) {
-	saved := knownFuncs
-	knownFuncs = map[string]bool{}
-	m, _ := scanNewFuncs(repo, nil)
-	knownFuncs = saved
-	var all []string
-	for _, ks := range m {
-		all = append(all, ks...)
+	var lines []string
+	for _, dir := range []string{"gbn", "mailbox"} {
+		fset := token.NewFileSet()
+		ents, _ := os.ReadDir(filepath.Join(repo, dir))
+		for _, e := range ents {
+			n := e.Name()
+			if e.IsDir() || !strings.HasSuffix(n, ".go") || strings.HasSuffix(n, "_test.go") {
+				continue
+			}
+			f, err := parser.ParseFile(fset, filepath.Join(repo, dir, n), nil, parser.SkipObjectResolution)
+			if err != nil {
+				continue
+			}
+			for _, d := range f.Decls {
+				switch x := d.(type) {
+				case *ast.FuncDecl:
+					if x.Body != nil && x.Name.Name != "init" {
+						lines = append(lines, declKey(dir, x)+"\t"+sigText(fset, x.Type))
+					}
+				case *ast.GenDecl:
+					for _, sp := range x.Specs {
+						ts, ok := sp.(*ast.TypeSpec)
+						if !ok {
+							continue
+						}
+						stt, ok := ts.Type.(*ast.StructType)
+						if !ok {
+							continue
+						}
+						for _, fl := range stt.Fields.List {
+							for _, nm := range fl.Names {
+								lines = append(lines, "field "+dir+"."+ts.Name.Name+"."+nm.Name+"\t"+nodeText(fset, fl.Type))
+							}
+						}
+					}
+				}
+			}
+		}
 	}
-	sort.Strings(all)
-	fmt.Println("# functions and methods of gbn/ and mailbox/ (non-test files) at the pinned commit + fix: commits.")
-	fmt.Println("# Calls of functions NOT listed here are candidates for the helper normalisation pre-pass (normalise.go).")
-	for _, k := range all {
+	sort.Strings(lines)
+	fmt.Println("# functions and methods (key<TAB>signature) and struct fields (field key<TAB>type) of gbn/ and mailbox/")
+	fmt.Println("# (non-test files) at the pinned commit + fix: commits. Calls of functions NOT listed here are candidates")
+	fmt.Println("# for the helper normalisation pre-pass; a listed name that is missing while exactly one unlisted")
+	fmt.Println("# declaration has its signature/type is treated as a rename and renamed back (normalise.go).")
+	for _, k := range lines {
 		fmt.Println(k)
 	}
 }
@@ -848,4 +924,129 @@ func blockInline(st *pkgState, dir string, stmt, outer ast.Stmt, call *ast.CallE
 	out.WriteString(strings.TrimRight(after, "\n"))
 	out.Write(callerSrc[sTo:])
 	return []byte(out.String()), ""
+}
+
+// noReturnDeferRecover: the body of a function literal can run in place of a call of it.
+func noReturnDeferRecover(body *ast.BlockStmt) bool {
+	ok := true
+	ast.Inspect(body, func(m ast.Node) bool {
+		switch y := m.(type) {
+		case *ast.FuncLit:
+			return false
+		case *ast.ReturnStmt, *ast.DeferStmt:
+			ok = false
+		case *ast.CallExpr:
+			if id, isID := y.Fun.(*ast.Ident); isID && id.Name == "recover" {
+				ok = false
+			}
+		}
+		return true
+	})
+	return ok
+}
+
+func plainLiteral(lit *ast.FuncLit) bool {
+	return (lit.Type.Params == nil || len(lit.Type.Params.List) == 0) && (lit.Type.Results == nil || len(lit.Type.Results.List) == 0)
+}
+
+// unwrapCalledLiterals: a statement `func() { stmts }()` - a function literal without parameters and
+// results, called on the spot, whose body has no return, defer or recover - is the block
+// `{ stmts }`; likewise `var f func() = func() { stmts }` (how the inliner binds a literal argument,
+// e.g. of `withLock(func() { ... })`) with f used exactly once, as the statement `f()`: the body
+// runs where the call is. Only done in files the normalisation already rewrote; every step is
+// re-type-checked.
+func unwrapCalledLiterals(p *packages.Package, imps mapImporter, src map[string][]byte, note *NormaliseNote) {
+	for round := 0; round < 20; round++ {
+		st, err := checkPackage(p, imps, src)
+		if err != nil {
+			return
+		}
+		done := false
+		for i, f := range st.files {
+			name := st.names[i]
+			if disk, err := os.ReadFile(name); err == nil && bytes.Equal(disk, src[name]) {
+				continue
+			}
+			var target *ast.ExprStmt
+			var declStmt *ast.DeclStmt
+			var body *ast.BlockStmt
+			ast.Inspect(f, func(n ast.Node) bool {
+				if target != nil {
+					return false
+				}
+				switch x := n.(type) {
+				case *ast.ExprStmt:
+					call, ok := x.X.(*ast.CallExpr)
+					if !ok || len(call.Args) != 0 {
+						return true
+					}
+					if lit, ok := call.Fun.(*ast.FuncLit); ok && plainLiteral(lit) && noReturnDeferRecover(lit.Body) {
+						target, body = x, lit.Body
+					}
+				case *ast.DeclStmt:
+					gd, ok := x.Decl.(*ast.GenDecl)
+					if !ok || gd.Tok != token.VAR || len(gd.Specs) != 1 {
+						return true
+					}
+					vs, ok := gd.Specs[0].(*ast.ValueSpec)
+					if !ok || len(vs.Names) != 1 || len(vs.Values) != 1 {
+						return true
+					}
+					lit, ok := vs.Values[0].(*ast.FuncLit)
+					if !ok || !plainLiteral(lit) || !noReturnDeferRecover(lit.Body) {
+						return true
+					}
+					obj := st.info.Defs[vs.Names[0]]
+					if obj == nil {
+						return true
+					}
+					var uses []*ast.Ident
+					for id, o := range st.info.Uses {
+						if o == obj {
+							uses = append(uses, id)
+						}
+					}
+					if len(uses) != 1 {
+						return true
+					}
+					ast.Inspect(f, func(m ast.Node) bool {
+						es, ok := m.(*ast.ExprStmt)
+						if !ok {
+							return true
+						}
+						if call, ok := es.X.(*ast.CallExpr); ok && len(call.Args) == 0 && call.Fun == ast.Expr(uses[0]) && es.Pos() > x.End() {
+							target, declStmt, body = es, x, lit.Body
+						}
+						return true
+					})
+				}
+				return true
+			})
+			if target == nil {
+				continue
+			}
+			tf := st.fset.File(target.Pos())
+			old := src[name]
+			var nb []byte
+			if declStmt != nil {
+				nb = append([]byte(nil), old[:tf.Offset(declStmt.Pos())]...)
+				nb = append(nb, old[tf.Offset(declStmt.End()):tf.Offset(target.Pos())]...)
+			} else {
+				nb = append([]byte(nil), old[:tf.Offset(target.Pos())]...)
+			}
+			nb = append(nb, old[tf.Offset(body.Pos()):tf.Offset(body.End())]...)
+			nb = append(nb, old[tf.Offset(target.End()):]...)
+			src[name] = nb
+			if _, err := checkPackage(p, imps, src); err != nil {
+				src[name] = old
+				return
+			}
+			note.Inlined = append(note.Inlined, "called function literal unwrapped in "+filepath.Base(name))
+			done = true
+			break
+		}
+		if !done {
+			return
+		}
+	}
 }
